@@ -127,7 +127,9 @@ def gen(rng):
     else:
         probe = True
         d = rng.choice(ds)
-    return {"k": "c13.section", "timeout_ms": 1500, "verts": verts, "faces": faces, "n": n, "d": d, "tol": 1e-6, "kind": kind, "closed": closed, "convex": kind in ("box", "prism", "tetra"),
+    # open height fields mostly run into the known parry hang: a short watchdog there; closed meshes never legitimately take long, so a
+    # generous one (a loaded machine must not be mistaken for a hang)
+    return {"k": "c13.section", "timeout_ms": 1500 if kind == "field" else 20000, "verts": verts, "faces": faces, "n": n, "d": d, "tol": 1e-6, "kind": kind, "closed": closed, "convex": kind in ("box", "prism", "tetra"),
             "probe": probe, "iso": {"t": [rng.uniform(-3, 3) for _ in range(3)], "axisangle": [rng.uniform(-2, 2) for _ in range(3)]}}
 
 
